@@ -20,7 +20,7 @@ void load() {
   }
   fclose(fp);
 }
-unsigned long long next(char kind) {
+unsigned long long vk_next_input(char kind) {
   load();
   if (g_pos < g_in.size()) {
     if (g_in[g_pos].kind != kind) { printf("X input kind mismatch at %zu\n", g_pos); fflush(stdout); _Exit(4); }
@@ -30,12 +30,12 @@ unsigned long long next(char kind) {
 }
 }
 extern "C" {
-uint8_t vk_sym_u8(void) { return (uint8_t)next('s'); }
-uint16_t vk_sym_u16(void) { return (uint16_t)next('s'); }
-uint32_t vk_sym_u32(void) { return (uint32_t)next('s'); }
-uint64_t vk_sym_u64(void) { return (uint64_t)next('s'); }
-void vk_make_symbolic(void* p, size_t n) { for (size_t i = 0; i < n; i++) ((uint8_t*)p)[i] = (uint8_t)next('s'); }
-uint32_t vk_choose(uint32_t n) { return (uint32_t)(next('c') % n); }
+uint8_t vk_sym_u8(void) { return (uint8_t)vk_next_input('s'); }
+uint16_t vk_sym_u16(void) { return (uint16_t)vk_next_input('s'); }
+uint32_t vk_sym_u32(void) { return (uint32_t)vk_next_input('s'); }
+uint64_t vk_sym_u64(void) { return (uint64_t)vk_next_input('s'); }
+void vk_make_symbolic(void* p, size_t n) { for (size_t i = 0; i < n; i++) ((uint8_t*)p)[i] = (uint8_t)vk_next_input('s'); }
+uint32_t vk_choose(uint32_t n) { return (uint32_t)(vk_next_input('c') % n); }
 void vk_assume(int c) { if (!c) { printf("U\n"); fflush(stdout); _Exit(0); } }
 void vk_assert(int c, const char* msg) { if (!c) { printf("A %s\n", msg); fflush(stdout); _Exit(3); } }
 void vk_event(uint32_t tag, uint64_t value) { printf("E %u %llu\n", tag, (unsigned long long)value); }
@@ -48,11 +48,16 @@ void vk_check_range(const void* p, size_t n) { volatile unsigned char s = 0; for
 // interpose the libstdc++ clocks: arbitrary non-decreasing instants taken from the recorded inputs
 namespace std { namespace chrono { inline namespace _V2 {
 static long long vk_last_clock = 0;
-static long long vk_clock() { long long v = (long long)(next('s') & ((1ull << 62) - 1)); if (v < vk_last_clock) v = vk_last_clock; vk_last_clock = v; return v; }
+extern "C" long long vk_now_ms __attribute__((weak));
+static long long vk_clock() {
+  if (&vk_now_ms) return vk_now_ms * 1000000LL; long long v = (long long)(vk_next_input('s') & ((1ull << 62) - 1)); if (v < vk_last_clock) v = vk_last_clock; vk_last_clock = v; return v; }
 system_clock::time_point system_clock::now() noexcept { return time_point(duration(vk_clock())); }
 steady_clock::time_point steady_clock::now() noexcept { return time_point(duration(vk_clock())); }
 }}}
 #endif
+#include <ctime>
+// the seed of exponential_backoff's generator (std::time(0)) is an input like any other
+extern "C" time_t time(time_t* t) noexcept { time_t v = (time_t)vk_next_input('s'); if (t) *t = v; return v; }
 #include <exception>
 #include <boost/assert/source_location.hpp>
 // -fno-exceptions build: Boost calls these instead of throwing; reaching one is reported like an abort
